@@ -273,6 +273,13 @@ func (s *server) DeleteTable(ctx context.Context, req *btapb.DeleteTableRequest)
 		return nil, status.Errorf(codes.NotFound, "table %q not found", req.Name)
 	}
 	delete(s.tables, req.Name)
+	// Requests that looked the table up before it was removed may still be working on it. Wait for them, and mark
+	// the table so that requests queued behind this one leave its persistent state alone: a late SetTableMeta
+	// would bring the table back, or overwrite the definition of a table re-created under the same name, on
+	// the next start.
+	tbl.mu.Lock()
+	tbl.deleted = true
+	tbl.mu.Unlock()
 	// Persistent storage must forget the table too, or it comes back (with its rows) on the next start.
 	if d, ok := s.storage.(interface{ DeleteTableMeta(tbl *btapb.Table) }); ok {
 		d.DeleteTableMeta(tbl.def)
@@ -290,6 +297,9 @@ func (s *server) ModifyColumnFamilies(ctx context.Context, req *btapb.ModifyColu
 
 	tbl.mu.Lock()
 	defer tbl.mu.Unlock()
+	if tbl.deleted {
+		return nil, status.Errorf(codes.NotFound, "table %q not found", req.Name)
+	}
 	cfs := tbl.def.ColumnFamilies
 
 	// Check every modification first, against the family set it will see, so that a request
@@ -389,6 +399,9 @@ func (s *server) DropRowRange(ctx context.Context, req *btapb.DropRowRangeReques
 
 	tbl.mu.Lock()
 	defer tbl.mu.Unlock()
+	if tbl.deleted {
+		return nil, status.Errorf(codes.NotFound, "table %q not found", req.Name)
+	}
 	if req.GetDeleteAllDataFromTable() {
 		tbl.rows.Clear()
 	} else {
@@ -1438,6 +1451,8 @@ type table struct {
 	mu   sync.RWMutex
 	def  *btapb.Table
 	rows Rows // indexed by row key
+
+	deleted bool // set by DeleteTable; guarded by mu
 
 	lastReadNanos  int64 // atomic, time in nanos on the real system clock
 	lastWriteNanos int64 // atomic, time in nanos on the real system clock
